@@ -37,7 +37,7 @@ func nonErrConds(f *hc.Facts, dir, fn string) []ast.Expr {
 		return nil
 	}
 	var out []ast.Expr
-	for _, c := range hc.IfConds(fd.Body) {
+	for _, c := range hc.C20IfConds(fd.Body) {
 		if !strings.Contains(f.Src(c), "err") {
 			out = append(out, c)
 		}
@@ -195,12 +195,12 @@ func facts(f *hc.Facts) {
 	f.Const("preallocateLimit", "bin", "PreallocateLimit")
 
 	// value checks, translated: the model calls these definitions
-	f.TranslateExprAuto("msgLenInvalidEnc", "proto", at(nonErrConds(f, "proto", "Message.Encode"), 0), hc.ExprOpt{})
-	f.TranslateExprAuto("msgLenInvalidDec", "proto", at(nonErrConds(f, "proto", "Message.Decode"), 0), hc.ExprOpt{})
+	f.C20TranslateExpr("msgLenInvalidEnc", "proto", at(nonErrConds(f, "proto", "Message.Encode"), 0), hc.C20ExprOpt{})
+	f.C20TranslateExpr("msgLenInvalidDec", "proto", at(nonErrConds(f, "proto", "Message.Decode"), 0), hc.C20ExprOpt{})
 	uc := nonErrConds(f, "proto", "UnencryptedMessage.Decode")
-	f.TranslateExprAuto("unencAuthKeyBad", "proto", at(uc, 0), hc.ExprOpt{})
-	f.TranslateExprAuto("unencLenNegative", "proto", at(uc, 1), hc.ExprOpt{})
-	f.TranslateExprAuto("unencLenBeyond", "proto", at(uc, 2), hc.ExprOpt{})
+	f.C20TranslateExpr("unencAuthKeyBad", "proto", at(uc, 0), hc.C20ExprOpt{})
+	f.C20TranslateExpr("unencLenNegative", "proto", at(uc, 1), hc.C20ExprOpt{})
+	f.C20TranslateExpr("unencLenBeyond", "proto", at(uc, 2), hc.C20ExprOpt{})
 	// the container loop `for i := 0; i < n; i++`
 	var loopCond ast.Expr
 	if fd := f.FuncDecl("proto", "MessageContainer.Decode"); fd != nil {
@@ -211,26 +211,26 @@ func facts(f *hc.Facts) {
 			return true
 		})
 	}
-	f.TranslateExprAuto("containerLoopCond", "proto", loopCond, hc.ExprOpt{})
+	f.C20TranslateExpr("containerLoopCond", "proto", loopCond, hc.C20ExprOpt{})
 	// GZIP.Decode: io.LimitReader(r, L) and the bomb check on reader.Total()
 	var limitArg, bombCond ast.Expr
 	var locals map[string]ast.Expr
 	if fd := f.FuncDecl("proto", "GZIP.Decode"); fd != nil {
-		locals = hc.LocalConsts(fd.Body)
+		locals = hc.C20LocalConsts(fd.Body)
 		ast.Inspect(fd.Body, func(n ast.Node) bool {
 			if ce, ok := n.(*ast.CallExpr); ok && f.Src(ce.Fun) == "io.LimitReader" && len(ce.Args) == 2 {
 				limitArg = ce.Args[1]
 			}
 			return true
 		})
-		for _, c := range hc.IfConds(fd.Body) {
+		for _, c := range hc.C20IfConds(fd.Body) {
 			if strings.Contains(f.Src(c), "Total()") {
 				bombCond = c
 			}
 		}
 	}
-	f.TranslateExprAuto("gzipLimitArg", "proto", limitArg, hc.ExprOpt{Locals: locals})
-	f.TranslateExprAuto("gzipBomb", "proto", bombCond, hc.ExprOpt{Locals: locals})
+	f.C20TranslateExpr("gzipLimitArg", "proto", limitArg, hc.C20ExprOpt{Locals: locals})
+	f.C20TranslateExpr("gzipBomb", "proto", bombCond, hc.C20ExprOpt{Locals: locals})
 
 	// write / read orders, interpreted by the model
 	bufferOps(f, "opsMessageEncode", "proto", "Message.Encode")
